@@ -379,6 +379,53 @@ def ref_munch(s, member, nullable):
 
 # ---------------------------------------------------------------- ppci side
 
+WORK_BUDGET = 20000
+
+
+class WorkLimit(Exception):
+    pass
+
+
+@contextlib.contextmanager
+def derivative_budget(n):
+    """Count every derivative() call on every Regex node class (wrappers installed from here, removed on exit; /repo is not edited)
+    and raise WorkLimit after n calls.  A deterministic substitute for a time limit."""
+    from ppci.lang.tools.regex import regex as rmod
+    classes = [c for c in vars(rmod).values() if isinstance(c, type) and issubclass(c, rmod.Regex) and "derivative" in vars(c)
+               and c is not rmod.Regex]
+    saved = [(c, vars(c)["derivative"]) for c in classes]
+    box = [0]
+
+    def wrap(f):
+        def derivative(self, symbol):
+            box[0] += 1
+            if box[0] > n:
+                raise WorkLimit()
+            return f(self, symbol)
+        return derivative
+    for c, f in saved:
+        c.derivative = wrap(f)
+    try:
+        yield box
+    finally:
+        for c, f in saved:
+            c.derivative = f
+
+
+def reference_dfa_size(ast):
+    nfa = RefNFA(ast)
+    reps = class_reps(nfa.boundaries())
+    todo = [nfa.start]
+    seen = {nfa.start}
+    while todo:
+        s = todo.pop()
+        for b in reps:
+            t = nfa.step(s, b)
+            if t not in seen:
+                seen.add(t)
+                todo.append(t)
+    return len(seen)
+
 def build_api(ast):
     """The same expression through the public constructors the parser itself uses."""
     from ppci.lang.tools import regex as rx
@@ -469,21 +516,44 @@ def check_case(p, ast, mode, text, nfa, R, L, Ls, seen_tables):
                 return k
         return default
 
+    # pre-flight with a deterministic work budget: compile() has no bound of its own and the expressions it builds can
+    # grow without limit; terminating expressions of <= 6 nodes need < 1000 sub-expression derivatives (measured: <= 346)
     try:
-        with cpu_limit(20):
-            if mode == "api":
-                prog = rx.compile(build_api(ast))
-            else:
-                prog = rx.compile(text)
-    except CpuTimeout:
+        expr = build_api(ast) if mode == "api" else rx.parse(text)
+    except Exception as ex:  # noqa
         p.add()
-        p.violation(locus("compile/timeout"), "%s: compile did not terminate within 20 CPU-seconds" % label, w)
+        p.violation(locus(exc_key("parser" if mode != "api" else "api", ex)), "%s: %s raised %s: %s (re accepts the expression)"
+                    % (label, "parse" if mode != "api" else "building the expression", type(ex).__name__, ex), w)
+        return None
+    try:
+        with cpu_limit(60), derivative_budget(WORK_BUDGET) as box:
+            prog = rx.compile(expr)
+        p.collect("derivative_work_max_bucket", "%05d" % (box[0] // 100 * 100))
+    except (WorkLimit, RecursionError, CpuTimeout) as ex:
+        p.add()
+        p.violation(locus("compile/diverges"), "%s: compile does not terminate (%s; expressions of this size that terminate need < 1000); "
+                    "the subset-construction DFA of this expression has %d states"
+                    % (label, "more than %d sub-expression derivatives taken" % WORK_BUDGET if isinstance(ex, WorkLimit)
+                       else type(ex).__name__, reference_dfa_size(ast)), w)
         return None
     except Exception as ex:  # noqa
         p.add()
-        p.violation(locus(exc_key("compile", ex)), "%s: compile raised %s: %s (re accepts it; language has %d strings of length <= %d)"
+        p.violation(locus(exc_key("compile", ex)), "%s: compile raised %s: %s (re accepts the expression; %d strings of length <= %d match)"
                     % (label, type(ex).__name__, ex, sum(R), L), w)
         return None
+    if mode != "api":
+        # the public string entry point (known to terminate now)
+        try:
+            with cpu_limit(60):
+                prog = rx.compile(text)
+        except CpuTimeout:
+            p.add()
+            p.violation(locus("compile/diverges"), "%s: compile(str) does not terminate although compile(parse(str)) does" % label, w)
+            return None
+        except Exception as ex:  # noqa
+            p.add()
+            p.violation(locus(exc_key("compile", ex)), "%s: compile raised %s: %s" % (label, type(ex).__name__, ex), w)
+            return None
     if prog in seen_tables:
         p.count("presentations_with_identical_tables")
         return prog
@@ -598,11 +668,11 @@ def check_pair(p, a1, a2, Lv):
     w = {"kind": "vector", "pair": [to_list(a1), to_list(a2)]}
     label = "make_scanner({A: %s, B: %s})" % (show(t1), show(t2))
     try:
-        with cpu_limit(20), contextlib.redirect_stdout(io.StringIO()):
+        with cpu_limit(60), derivative_budget(2 * WORK_BUDGET), contextlib.redirect_stdout(io.StringIO()):
             sc = rx.make_scanner({"A": t1, "B": t2})
-    except CpuTimeout:
+    except (CpuTimeout, WorkLimit, RecursionError):
         p.add()
-        p.violation("vector/timeout", "%s did not terminate" % label, w)
+        p.violation("vector/diverges", "%s does not terminate" % label, w)
         return
     except Exception as ex:  # noqa
         p.add()
